@@ -6,16 +6,16 @@ import sys
 from . import registry
 
 LEVEL_TEXT = {
- "C01": "Bounded symbolic execution (rs2smt + z3) of the real SnapshotWriter / SnapshotReader / message code over a modelled file and protobuf primitive layer, including a file left by an interrupted build; counterexamples replayed on real files. Narrow: the snapshot file format only, not the restart orchestration.",
+ "C01": "Bounded symbolic execution (rs2smt + z3) of (a) the real SnapshotWriter / SnapshotReader / message code over a modelled file and protobuf primitive layer, including a file left by an interrupted build (counterexamples replayed on real files), and (b) the start-up chain StateApplyManager::{init,load_index,load_snapshot,load_log,load_complete} with recording collaborators and symbolic catalogue / last-applied index: snapshot before log, replay range exactly the applied suffix, load-complete delivered. Narrow: the seven components' own snapshot handlers are outside.",
  "C02": "Bounded model checking (Kani/CBMC) of the log file's index arithmetic at full integer width (index rewind, index-area parsing, scan start) plus bounded symbolic execution (rs2smt + z3) of the real LogInnerManager over a modelled file layer: appends, a refused wrong-index append, reopen. The chunk-boundary end-of-log logic is decided under C20.",
  "C03": "Bounded model checking (Kani/CBMC) of the truncation arithmetic for every cut point and index-entry width, plus bounded symbolic execution (rs2smt + z3) of the real LogInnerManager: appends, delete-from every k (on and across index entries), re-appends of any length, optional reopen.",
- "C04": "Bounded symbolic execution (rs2smt + z3) of the real log-file code with a symbolic crash point over the journal of its file mutations (also inside an operation): the log reopens and shows the state of the last acknowledged operation or of the one in flight. Narrow: one log file; cross-file orders between actors are outside.",
- "C05": "Bounded symbolic execution (rs2smt + z3) of the real index-file code (init, write_index, write_last_applied_log, message code, FileMessageReader) over a modelled file layer: save hard state then restart, symbolic 64-bit values; plus Kani for the id codec at all u64; counterexamples replayed on real files.",
+ "C04": "Bounded symbolic execution (rs2smt + z3) of the real log-file code with a symbolic crash point over the journal of its file mutations (also inside an operation, also during the creation of a new file): the log reopens and shows the state of the last acknowledged operation or of the one in flight; counterexamples and sampled paths are executed on the real LogInnerManager. Narrow: one log file; cross-file orders between actors are outside.",
+ "C05": "Bounded symbolic execution (rs2smt + z3) of the real index-file code (init, write_index, write_last_applied_log, message code, FileMessageReader) over a modelled file layer: save hard state then restart, symbolic 64-bit values; every sequence of 2-3 requests to the RaftIndexManager actor (hard state, membership, addresses, catalogue, last-applied) observed in-process and after restart; plus Kani for the id codec at all u64.",
  "C07": "Translation validation of three programs (leader apply, follower batch, start-up replay): each request variant is symbolically evaluated through the three real function bodies and the emitted (actor, message) terms are compared by z3; plus the last-applied bookkeeping of the batch path vs the single path.",
  "C09": "Bounded symbolic execution of the real config-store source (set_config, del_config, GET, index, history) over every history of 3-4 operations with arbitrary string contents, decided by z3.",
- "C10": "Bounded symbolic execution of the real long-poll listener and gRPC subscriber source over every interleaving of 3-4 actor messages with symbolic md5s / contents, decided by z3.",
- "C11": "Bounded symbolic execution of the real naming Service source over every history of 3 operations on two addresses with symbolic instance flags: counters, persistent set and instance map agree after every step.",
- "C12": "Bounded symbolic execution of the real naming Service source: query results vs a reference registry, removal ownership, fields of a new registration; the query filter for all flag combinations. Service level only.",
+ "C10": "Bounded symbolic execution of the real long-poll listener and gRPC subscriber source over every interleaving of 3-4 actor messages (listen, publish, remove, tick, tmp value of a forwarded publish, subscribe / unsubscribe / disconnect) with symbolic md5s / contents; oracle in state form: no registered listener holds an md5 that differs from the stored one.",
+ "C11": "Bounded symbolic execution of the real naming Service source over every history of 3 operations on two addresses with symbolic instance flags (counters, persistent set and instance map agree after every step) and of the NamingActor registration paths (gRPC / HTTP register, deregister, connection close): the per-connection reverse map matches the stored owners after every step; counterexamples and sampled paths run on the real Service / NamingActor.",
+ "C12": "Bounded symbolic execution of the real naming Service source (query results vs a reference registry, removal ownership, fields of a new registration, the query filter for all flag combinations) and of the NamingActor registration paths: a connection close removes every instance the connection owns and nothing else.",
  "C13": "Bounded symbolic execution of Service::time_check over the real TimeoutSet source with the clock on a grid around the two time-outs: beating instances are never expired, silent ones are marked and removed, unsupervised ones are untouched.",
  "C14": "Bounded symbolic execution of the real ownership and routing source for every cluster size up to 5, symbolic liveness and all 2^64 hash values, decided by z3; counterexamples replayed against the native build.",
  "C16": "Symbolic evaluation of the real route registration, auth middleware, gRPC dispatcher and token gate source into string/regex/bit-vector SMT queries: route-language inclusion in the checked-path language (including percent-encoded spellings as actix requotes them), decision implication of the middleware, dispatch implication for every gRPC request type; counterexamples confirmed against the real predicates and end to end against the real App.",
